@@ -598,7 +598,7 @@ theorem shape_rwClose {cfg : Cfg α} {name : Bytes} {st : St α} (h : Inv cfg na
         rcases rwInit_spec cfg st with e | ⟨e, ok⟩
         · exact ⟨_, rfl, by rw [e]; exact hw, by rw [e]; exact hs, by rw [e], Or.inl (by rw [e]; exact ho)⟩
         · rw [e]
-          exact ⟨_, rfl, hw, hs, rfl, Or.inr ⟨rfl, by simp [h.nm], ok, by simpa using hc⟩⟩
+          exact ⟨_, rfl, hw, hs, rfl, Or.inr ⟨rfl, by simp [h.nm], ok, by simp [hc]⟩⟩
       · simp only [hc]
         exact ⟨_, rfl, hw, hs, rfl, Or.inl ho⟩
     obtain ⟨s1, e, k1, k2, k3, k4⟩ := key
@@ -780,6 +780,142 @@ theorem runPlain_spec (cfg : Cfg α) : ∀ (ops : List (Op α)) (st : St α), pl
     rw [List.foldl_cons]
     exact ⟨c, by rw [d, b]; simp [written, List.append_assoc]⟩
 
+/-! ## once the header is committed the choice never changes -/
+
+theorem committed_rwWriteHeader (st : St α) (s : Nat) (hw : st.wroteHeader = true) :
+    (rwWriteHeader st s).wroteHeader = true ∧ (rwWriteHeader st s).encOpen = st.encOpen := by
+  unfold rwWriteHeader informational connectImmediate vary304
+  split <;> split <;> split <;> simp [dsWriteHeader, hw]
+
+theorem committed_connectDefault (st : St α) (hw : st.wroteHeader = true) : connectDefault st = st := by
+  simp [connectDefault, hw]
+
+theorem committed_rwWrite (cfg : Cfg α) (st : St α) (p : α) (hw : st.wroteHeader = true) :
+    (rwWrite cfg st p).wroteHeader = true ∧ (rwWrite cfg st p).encOpen = st.encOpen := by
+  refine ⟨rwWrite_wrote_mono cfg st p hw, ?_⟩
+  unfold rwWrite
+  split
+  · rfl
+  · rw [committed_connectDefault _ hw, decide1_noop _ _ _ hw, commitHeader_noop _ hw]
+    unfold emit; split <;> simp [encWrite, dsWrite, implicitHeader]
+
+theorem committed_foldl_encWrite : ∀ (cs : List α) (st : St α),
+    (cs.foldl encWrite st).wroteHeader = st.wroteHeader ∧ (cs.foldl encWrite st).encOpen = st.encOpen
+  | [], _ => ⟨rfl, rfl⟩
+  | c :: cs, st => by
+    rw [List.foldl_cons]
+    obtain ⟨a, b⟩ := committed_foldl_encWrite cs (encWrite st c)
+    exact ⟨by rw [a]; rfl, by rw [b]; rfl⟩
+
+theorem committed_foldl_dsWrite : ∀ (cs : List α) (st : St α),
+    (cs.foldl dsWrite st).wroteHeader = st.wroteHeader ∧ (cs.foldl dsWrite st).encOpen = st.encOpen
+  | [], _ => ⟨rfl, rfl⟩
+  | c :: cs, st => by
+    rw [List.foldl_cons]
+    obtain ⟨a, b⟩ := committed_foldl_dsWrite cs (dsWrite st c)
+    exact ⟨by rw [a]; rfl, by rw [b]; rfl⟩
+
+theorem committed_step (cfg : Cfg α) (st : St α) (op : Op α) (hw : st.wroteHeader = true) :
+    (step cfg st op).wroteHeader = true ∧ (step cfg st op).encOpen = st.encOpen := by
+  cases op with
+  | writeHeader s => exact committed_rwWriteHeader st s hw
+  | write p => exact committed_rwWrite cfg st p hw
+  | flush =>
+    simp only [step, rwFlush, committed_connectDefault _ hw, hw, flushThrough]
+    by_cases ho : st.encOpen = true <;> simp [dsFlush, encFlush, implicitHeader, hw, ho]
+  | readFrom cs =>
+    simp only [step, rwReadFrom, hw, copyRest]
+    split
+    · simp_all
+    · split
+      · obtain ⟨a, b⟩ := committed_foldl_encWrite (nonEmpty cfg cs) st; exact ⟨by rw [a, hw], b⟩
+      · obtain ⟨a, b⟩ := committed_foldl_dsWrite (nonEmpty cfg cs) st; exact ⟨by rw [a, hw], b⟩
+  | hset k v => exact ⟨hw, rfl⟩
+  | hadd k v => exact ⟨hw, rfl⟩
+  | hdel k => exact ⟨hw, rfl⟩
+
+theorem committed_run (cfg : Cfg α) : ∀ (ops : List (Op α)) (st : St α), st.wroteHeader = true →
+    (run cfg st ops).wroteHeader = true ∧ (run cfg st ops).encOpen = st.encOpen
+  | [], _, hw => ⟨hw, rfl⟩
+  | op :: ops, st, hw => by
+    have : run cfg st (op :: ops) = run cfg (step cfg st op) ops := rfl
+    obtain ⟨a, b⟩ := committed_step cfg st op hw
+    obtain ⟨c, d⟩ := committed_run cfg ops _ a
+    rw [this]; exact ⟨c, by rw [d, b]⟩
+
 end
+
+/-! ## negotiation -/
+
+theorem mem_insertRev (x y : Pref) : ∀ (l : List Pref), y ∈ insertRev x l ↔ y = x ∨ y ∈ l
+  | [] => by simp [insertRev]
+  | z :: zs => by
+    unfold insertRev
+    split
+    · simp only [List.mem_cons, mem_insertRev x y zs]; exact or_left_comm
+    · simp only [List.mem_cons]
+
+theorem mem_foldl_insertRev (y : Pref) : ∀ (l acc : List Pref),
+    y ∈ l.foldl (fun acc x => insertRev x acc) acc ↔ y ∈ l ∨ y ∈ acc
+  | [], acc => by simp
+  | x :: xs, acc => by
+    rw [List.foldl_cons, mem_foldl_insertRev y xs, mem_insertRev, List.mem_cons, or_left_comm, ← or_assoc]
+
+theorem mem_goSort (y : Pref) (l : List Pref) : y ∈ goSort l ↔ y ∈ l := by
+  unfold goSort
+  rw [List.mem_reverse, mem_foldl_insertRev]; simp
+
+/-- every name `AcceptedEncodings` returns comes from an element of the header with non-zero quality -/
+theorem mem_acceptedEncodings {ae : Bytes} {ws : Bool} {prefer : List Bytes} {c : Bytes}
+    (h : c ∈ acceptedEncodings ae ws prefer) :
+    ∃ elem ∈ splitOn 44 ae, elemName elem = c ∧ elemQ elem > 0 ∧ (ws = true → c = vIdentity) := by
+  unfold acceptedEncodings at h
+  split at h
+  · simp at h
+  · rw [List.mem_map] at h
+    obtain ⟨p, hp, rfl⟩ := h
+    rw [mem_goSort] at hp
+    unfold acceptedPrefs at hp
+    rw [List.mem_filterMap] at hp
+    obtain ⟨elem, he, hpe⟩ := hp
+    refine ⟨elem, he, ?_⟩
+    unfold elemPref at hpe
+    split at hpe
+    · cases hpe
+    · rename_i hq
+      split at hpe
+      · cases hpe
+      · rename_i hws
+        cases hpe
+        refine ⟨rfl, Nat.pos_of_ne_zero hq, fun hw => ?_⟩
+        simp [hw] at hws
+        exact hws
+
+/-! ## entity tags -/
+
+theorem isSuffixOf_append (s b : Bytes) : s.isSuffixOf (b ++ s) = true := by
+  rw [List.isSuffixOf_iff_suffix]; exact List.suffix_append b s
+
+theorem trimSuffix_append (s b : Bytes) : trimSuffix s (b ++ s) = b := by
+  unfold trimSuffix hasSuffix
+  rw [isSuffixOf_append]; simp
+
+theorem trimSuffix_length (suf s : Bytes) : (trimSuffix suf s).length + suf.length ≥ s.length := by
+  unfold trimSuffix
+  split
+  · simp [List.length_take]; omega
+  · omega
+
+theorem etagSuffix_ne_nil (name : Bytes) : etagSuffix name ≠ [] := by simp [etagSuffix]
+
+theorem weakPrefix_append (b : Bytes) (name : Bytes) (h : hasPrefix vWeakPrefix (b ++ [34]) = false) :
+    hasPrefix vWeakPrefix (b ++ etagSuffix name) = false := by
+  match b with
+  | [] => simp [hasPrefix, vWeakPrefix, etagSuffix, List.isPrefixOf]
+  | [c] =>
+    simp [hasPrefix, vWeakPrefix, etagSuffix, List.isPrefixOf] at h ⊢
+  | c1 :: c2 :: r =>
+    simp [hasPrefix, vWeakPrefix, List.isPrefixOf] at h ⊢
+    exact h
 
 end CaddyModel.C15
